@@ -17,6 +17,9 @@ def gen_chatter(d):
         toks.append(d.choice(CHATTER_TOKENS) if d.chance(0.5) else d.text(CHATTER, 0, 12))
     t = ' '.join(toks)
     t = TS_SHAPED.sub('[]', t)
+    if d.chance(0.12):
+        # characters str.splitlines() takes for line ends although a text stream does not: the line stays one line
+        t = 'pre' + d.choice(['\x0b', '\x0c', '\x1c', '\x1d', '\x1e', '\x85', '\u2028', '\u2029']) + 'post ' + t
     if d.chance(0.3):
         t = d.choice([' ', '  ', '\t']) + t
     if d.chance(0.3):
@@ -197,6 +200,68 @@ class Streams(Stage):
         return res
 
 
+class CliOptions(Stage):
+    """the same accounting on the command line: main.py in pipe and file mode with combinations of its own options (-b, -f *,
+    --supress, colour); whatever the combination, every message line yields one message line and every other line one
+    passed-through line (none with --supress)"""
+    name = 'cli-options'
+
+    def examples(self, tier):
+        return 24 if tier == 'quick' else 14 * 60
+
+    def gen(self, d, tier):
+        specs = histgen.history(d, nconn=d.int(1, 2), nmsg=d.int(2, 10), profile=PROFILE)
+        lines = []
+        for m in specs:
+            while d.chance(0.3):
+                c = gen_chatter(d)[:200]
+                lines.append(['chat', c])
+            lines.append(['msg', wire.render(m, 'new')])
+        opts = []
+        if d.chance(0.5): opts += ['-b', d.choice(['.sync', '*', 'wl_display', '!', '.nothing_has_this_name', 'wl_registry, .delete_id'])]
+        if d.chance(0.4): opts += ['--supress']
+        if d.chance(0.3): opts += ['-f', d.choice(['*', '*.*', '* . *'])]
+        opts = d.perm(['X'] + [tuple(opts[i:i + 2]) if opts[i] in ('-b', '-f') else (opts[i],) for i in [k for k in range(len(opts)) if opts[k].startswith('-')]])
+        return dict(specs=specs, lines=lines, opts=[w for o in opts if o != 'X' for w in o], mode_first='X' in opts[:1], final_newline=d.chance(0.7))
+
+    def execute(self, case):
+        from .. import cli
+        res = Result()
+        res.evals = 0
+        text = '\n'.join(l[1] for l in case['lines']) + ('\n' if case['final_newline'] or case['lines'][-1][1].strip() == '' else '')
+        data = text.encode('utf-8')
+        nmsg = sum(1 for k, _ in case['lines'] if k == 'msg')
+        nchat = len(re.split(r'\r\n|\r|\n', text)) - (1 if text.endswith('\n') else 0) - nmsg
+        supress = '--supress' in case['opts']
+        with cli.Scratch() as sc:
+            log = sc.write('s.log', data, 'wb')
+            runs = []
+            for mode in ('pipe', 'file'):
+                mo = ['-p'] if mode == 'pipe' else ['-l', log]
+                argv = ['-C'] + (mo + case['opts'] if case.get('mode_first') else case['opts'] + mo)
+                rc, out, err = cli.run_main(argv, stdin=data if mode == 'pipe' else b'q\n')
+                runs.append((mode, argv, rc, out, err))
+        for mode, argv, rc, out, err in runs:
+            if rc is None:
+                res.label('timeout(inconclusive)')
+                continue
+            res.evals += 1
+            o = out.decode('utf-8', 'replace')
+            shown = len(re.findall(r'^\s*-?\d+\.\d{4} \w*: ', o, re.M))
+            passed = len(re.findall(r'^       \|  ', o, re.M))
+            if rc != 0:
+                res.bad('cli:exit-status:' + mode, '%r exited %r: %r' % (argv, rc, err[-200:]))
+            if shown != nmsg:
+                res.bad('cli:message-lines:' + mode, '%r: %d message lines shown for %d in the stream' % (argv, shown, nmsg))
+            if passed != (0 if supress else nchat):
+                res.bad('cli:passthrough-lines:' + mode, '%r: %d lines passed through, %d non-message lines in the stream' % (argv, passed, nchat))
+        res.nontrivial = len(case['opts']) >= 2 and nmsg >= 2
+        for o in case['opts']:
+            if o.startswith('-'): res.label('option:' + o)
+        res.sample = dict(opts=case['opts'], lines=[l[1][:80] for l in case['lines'][:6]])
+        return res
+
+
 class C08(Prop):
     id = 'C08'
     rule = ('generated well-formed message streams (both dialects) with non-message lines (chatter without timestamp-shaped token, blank and '
@@ -204,10 +269,11 @@ class C08(Prop):
             'settings; via the scripted reader each input line must have produced exactly its one item before the next read; every truncation '
             'offset of streams <= 400 bytes (40 drawn offsets above) is re-run and must give the same per-line output, one item for a partial '
             'line, then only Closed notices. non-trivial = stream with >= 3 message lines and >= 2 non-message lines not all adjacent; distinct '
-            'by SHA-1 of the case.')
+            'by SHA-1 of the case. cli-options: main.py -p / -l with drawn combinations of -b, -f <everything>, --supress in drawn order: message '
+            'and passed-through line counts vs the stream (non-trivial = >= 2 option words and >= 2 messages).')
     assumptions = ['New/Closed notices and time-gap separator lines are not items (C04, C16)',
                    'chatter contains no timestamp-shaped token, so it denotes no message by an independent definition']
-    stages = [Streams()]
+    stages = [Streams(), CliOptions()]
 
 
 PROP = C08()
